@@ -173,6 +173,7 @@ def parseEvent (j : Json) : P Pool.Event := do
   else if e == "stop" then return .stopCalled (← natF j "i")
   else if e == "finish" then return .finish (← natF j "i") (← parseRes (fieldD j "r" Json.null))
   else if e == "waitFirst" then return .waitFirst (← mapM' (fun x => x.getNat?) (← arrF j "c"))
+  else if e == "timeout" then return .timeout
   else if e == "waitAll" then return .waitAll
   else if e == "exit" then return .exit (← parseRes (fieldD j "r" Json.null))
   else throw s!"bad event {e}"
